@@ -261,6 +261,8 @@ def _pyval(v):
 def discharge(ob, inputs=None, timeout_ms=10000, extra=None):
     """decide  /\\ pc  =>  goal.   Returns dict(verdict, model, time, backend)."""
     t0 = time.time()
+    if z3.is_true(ob.goal):
+        return dict(name=ob.name, kind=ob.kind, backend='trivial', time=0.0, model=None, verdict='proved')
     s = z3.Solver()
     s.set('timeout', timeout_ms)
     for c in ob.pc:
